@@ -49,7 +49,7 @@ def main(argv=None):
     if args.shard:
         i, n = map(int, args.shard.split("/"))
         ctx = core.Ctx(pid, args.tier, seed, shard=i, nshards=n)
-        budget = getattr(mod, "SOFT_BUDGET_S", {}).get(args.tier)
+        budget = getattr(mod, "SOFT_BUDGET_S", {"quick": 150, "thorough": 1200}).get(args.tier)
         if budget:
             ctx.deadline = time.time() + budget
         p = core.run_shard(mod, ctx)
@@ -64,7 +64,7 @@ def main(argv=None):
     inconclusive = []
     if n == 1:
         ctx = core.Ctx(pid, args.tier, seed)
-        budget = getattr(mod, "SOFT_BUDGET_S", {}).get(args.tier)
+        budget = getattr(mod, "SOFT_BUDGET_S", {"quick": 150, "thorough": 1200}).get(args.tier)
         if budget:
             ctx.deadline = time.time() + budget
         partials.append(core.run_shard(mod, ctx))
